@@ -14,11 +14,29 @@ typedef unsigned char uchar;
 #ifndef ESZ
 #define ESZ 2
 #endif
+#ifdef QV_C13
+#define QV_LOCK_HOOKS
+#endif
 #include "qv_pthread.h"
 #include "src/containers/qlist.c"
 #include "src/containers/qqueue.c"
 #include "src/containers/qstack.c"
 #include "src/containers/qgrow.c"
+
+#ifdef QV_C13
+/* C13 overlay (see harness/qvector/vector.c): shared fields are poison while the list lock is not held */
+static qlist_t *c13_l; static size_t c13_num, c13_sum; static qlist_obj_t *c13_first, *c13_last;
+static void c13_reveal(void) { c13_l->num = c13_num; c13_l->datasum = c13_sum; c13_l->first = c13_first; c13_l->last = c13_last; }
+static void c13_hide(void) { c13_num = c13_l->num; c13_sum = c13_l->datasum; c13_first = c13_l->first; c13_last = c13_l->last;
+    c13_l->num = nondet_size_t(); c13_l->datasum = nondet_size_t(); c13_l->first = NULL; c13_l->last = NULL; }
+void qv_on_acquire(void) { c13_reveal(); }
+void qv_on_release(void) { c13_hide(); }
+#define C13_BEGIN(l) do { c13_l = (l); c13_hide(); } while (0)
+#define C13_SETTLE() c13_reveal()
+#else
+#define C13_BEGIN(l) do { } while (0)
+#define C13_SETTLE() do { } while (0)
+#endif
 
 /* ideal sequence */
 struct model { size_t n; size_t size[LN + 2]; uchar data[LN + 2][ESZ]; };
@@ -57,6 +75,9 @@ static struct lstate mk(void) {
     QV_ASSUME(depth0 >= 0 && depth0 <= 2);
     gh_lock_depth = depth0; gh_lock_acquired = 0;
     s.l = l; s.max = max; s.depth0 = depth0;
+#ifdef QV_C13
+    QV_ASSUME(ts && depth0 == 0);
+#endif
     return s;
 }
 
@@ -81,7 +102,11 @@ static void check(struct lstate *s, const struct model *m) {
     QV_ASSERT(l->datasum == sum, "C09: total byte size is exact");
     QV_ASSERT(l->max == s->max, "C09: size limit untouched");
 }
+#ifdef QV_C13
+#define LOCK_BALANCED(s) do { C13_SETTLE(); QV_ASSERT(gh_lock_depth == (s).depth0, "C13: the operation ran inside one critical section and released it"); } while (0)
+#else
 #define LOCK_BALANCED(s) QV_ASSERT(gh_lock_depth == (s).depth0, "C14: lock depth on return equals depth on entry")
+#endif
 
 #ifdef VARIANT
 #define VARIANT_IN(maxv) const int variant = VARIANT
@@ -103,6 +128,7 @@ void h_add(void) {
     long long pos = index < 0 ? (long long)LN + index + 1 : index;       /* -1 == append */
     bool inrange = pos >= 0 && pos <= LN;
     bool full = s.max > 0 && LN >= s.max;
+    C13_BEGIN(l);
     errno = 0;
     bool r;
     if (variant == 1) { QV_ASSUME(index == 0); r = qlist_addfirst(l, e, esz); }
@@ -158,6 +184,7 @@ void h_access(void) {
     qlist_obj_t *node = NULL;
     if (valid) { node = l->first; for (long long i = 0; i < pos; i++) node = node->next; }
     void *internal = node ? node->data : NULL;
+    C13_BEGIN(l);
     errno = 0;
     if (kind == 0) p = how == 0 ? qlist_getat(l, index, wantsize ? &sz : NULL, newmem) : how == 1 ? qlist_getfirst(l, wantsize ? &sz : NULL, newmem) : qlist_getlast(l, wantsize ? &sz : NULL, newmem);
     else if (kind == 1) p = how == 0 ? qlist_popat(l, index, wantsize ? &sz : NULL) : how == 1 ? qlist_popfirst(l, wantsize ? &sz : NULL) : qlist_poplast(l, wantsize ? &sz : NULL);
@@ -248,6 +275,7 @@ void h_flatten(void) {
     size_t sum = 0; for (size_t i = 0; i < LN; i++) sum += m.size[i];
     QV_IN(bool, wantsize);
     size_t n = 4242;
+    C13_BEGIN(l);
     errno = 0;
     uchar *a = qlist_toarray(l, wantsize ? &n : NULL);
     LOCK_BALANCED(s);
@@ -264,6 +292,7 @@ void h_flatten(void) {
         free(a);
         QV_REACH("toarray done");
     }
+    C13_BEGIN(l);
     errno = 0;
     char *str = qlist_tostring(l);
     LOCK_BALANCED(s);
